@@ -43,29 +43,156 @@ def table_of_return(ctx, rep, rule, fn):
 
 
 def need_atoms(rep, rule, fn, tab, b, allowed, required=()):
-    """the table may depend only on the listed atoms (fail closed otherwise)"""
+    """the oracle is a function of the listed atoms.  Further atoms with a finite domain that the paths happen to test (for
+    example because an independent computation was moved in front) are enumerated like the others: every row is still compared
+    with the oracle, so a result that wrongly depends on them shows up as a mismatching row.  Only an explosion fails closed."""
     extra = sorted(set(tab.atoms) - set(allowed))
-    ok = rep.ob(rule, 'atoms:%s' % sym.short(fn), not extra,
-                '%s branches on %s, which the rule does not model (allowed: %s)' % (fn, extra, sorted(allowed)),
-                loc=b.loc(b.j['line_lo']), reason='cannot-tabulate')
-    return ok
+    rep.info.setdefault('further atoms enumerated', {})[sym.short(fn)] = extra
+    rep.ob(rule, 'atoms:%s' % sym.short(fn), len(extra) <= 5,
+           '%s branches on %s besides the atoms of the table (%s): too many to enumerate' % (fn, extra, sorted(allowed)),
+           loc=b.loc(b.j['line_lo']), reason='cannot-tabulate')
+    return len(extra) <= 5
 
 
 def path_lines(b, p):
     return ['%s:%s' % (b.file, l) for l in p.branch_lines()][:10]
 
 
+# ------------------------------------------------------------- the stored result transition as one table (fallback)
+
+def combined_table(ctx, rep, rule):
+    """(body, {(op, edge_type, is_subject, in_out, other_in_out): set of 'None' / 'InOut' / 'OutIn'}) read from compute_fields with
+    every helper of its module expanded: the value stored into result_transition as a function of the operation and of the event's
+    own edge type and flags (loads of the flags are atoms, so the part of compute_fields that writes them does not enter).  Used when
+    the selection / transition helpers are not the two functions the primary tables read (renamed, merged, other signatures)."""
+    cached = getattr(ctx, '_combined_tables', None)
+    if cached is None:
+        cached = ctx._combined_tables = {}
+    if ctx.config in cached:
+        return cached[ctx.config]
+    f = ctx.facts()
+    helpers = tuple(sorted(n for n in f.bodies if n.startswith('boolean::compute_fields::') and n != COMPUTE
+                           and '{closure' not in n and '{promoted' not in n))
+    b, ps = rep.explore(ctx, COMPUTE, rule, expand=helpers, atomic=('in_out', 'other_in_out'))
+    res = None
+    if b is not None:
+        try:
+            tab = Table(f, b, alias=ALIAS_CF, domains={'has_prev': [0, 1]})
+            seen = set()
+            for p in ps:
+                if p.end == 'unreachable':
+                    continue
+                if p.end != 'return':
+                    raise CannotTabulate('path ends with %s' % p.end)
+                st = [s for s in event_cell_stores(p) if s[2] == 'result_transition' and obj_root(s[1], ALIAS_CF) == 'event']
+                if len(st) != 1:
+                    raise CannotTabulate('%d stores of the event\'s result_transition on one path (expected 1)' % len(st))
+                flags = [s[0] for s in event_cell_stores(p) if s[2] in ('in_out', 'other_in_out')]
+                lo = max(flags) if flags else -1
+                if lo > st[0][0]:
+                    raise CannotTabulate('the flags are written after the result transition was computed')
+                conds = []
+                for e in p.events[lo + 1:st[0][0]]:
+                    if e['k'] == 'branch':
+                        conds.extend(sym.normalise_cond(e['val'], e['cond']))
+                key = (tuple(sorted(map(repr, (noepoch(c) for c in conds)))), repr(noepoch(st[0][3])))
+                if key in seen:
+                    continue
+                seen.add(key)
+                tab.add_row(conds, st[0][3], p, outcome_terms=[st[0][3]])
+            rows = list(tab.tabulate(_ret_eval))
+            allowed = {'operation', 'event.edge_type', 'event.is_subject', 'event.other_in_out', 'event.in_out'}
+            if need_atoms(rep, rule, COMPUTE, tab, b, allowed):
+                code = {}
+                for val, out, p in rows:
+                    for op in oracle.OPS:
+                        for et in oracle.EDGE_TYPES:
+                            for subj in (False, True):
+                                for io in (False, True):
+                                    for oio in (False, True):
+                                        want = {'operation': op, 'event.edge_type': et, 'event.is_subject': subj, 'event.in_out': io,
+                                                'event.other_in_out': oio}
+                                        if all(ename(val[a]) == w for a, w in want.items() if a in val):
+                                            code.setdefault((op, et, subj, io, oio), set()).add(out)
+                res = (b, code)
+        except (CannotTabulate, sym.CannotAnalyse) as e:
+            rep.ob(rule, 'tabulable:compute_fields/result', False, 'cannot tabulate the result transition stored by compute_fields: %s' % e,
+                   loc=b.loc(b.j['line_lo']), reason='cannot-tabulate')
+    cached[ctx.config] = res
+    return res
+
+
+def _anchors_present(ctx):
+    f = ctx.facts()
+    return IN_RESULT in f.bodies and DET_TRANS in f.bodies
+
+
+def select_from_combined(ctx, rep, rule):
+    r = combined_table(ctx, rep, rule)
+    if r is None:
+        return None
+    b, code = r
+    table = {}
+    n = 0
+    for op in oracle.OPS:
+        for et in oracle.EDGE_TYPES:
+            for subj in (False, True):
+                for oio in (False, True):
+                    outs = set()
+                    for io in (False, True):
+                        outs |= set(o != 'None' for o in code.get((op, et, subj, io, oio), {'?'}))
+                    exp = oracle.in_result(op, et, subj, oio)
+                    n += 1
+                    rep.ob(rule, 'op=%s,edge_type=%s,is_subject=%d,other_in_out=%d' % (op, et, subj, oio), outs == {exp},
+                           'compute_fields selects the edge %s but a %s edge with these flags %s a boundary of %s'
+                           % (sorted(outs), et, 'is' if exp else 'is not', op), loc=b.loc(b.j['line_lo']), reason='table-row',
+                           expected=exp, found=sorted(outs))
+                    if len(outs) == 1:
+                        table[(op, et, subj, oio)] = outs.pop()
+    rep.rows_compared += n
+    return table
+
+
+def trans_from_combined(ctx, rep, rule, edge_types):
+    r = combined_table(ctx, rep, rule)
+    if r is None:
+        return None
+    b, code = r
+    table = {}
+    n = 0
+    for op in oracle.OPS:
+        for et in edge_types:
+            for subj in (False, True):
+                for io in (False, True):
+                    for oio in (False, True):
+                        exp = oracle.transition(op, et, subj, io, oio)
+                        if exp is None or not oracle.in_result(op, et, subj, oio):
+                            continue
+                        vals = set(code.get((op, et, subj, io, oio), {'?'}))
+                        n += 1
+                        rep.ob(rule, 'op=%s,edge_type=%s,is_subject=%d,in_out=%d,other_in_out=%d' % (op, et, subj, io, oio), vals == {exp},
+                               'result transition %s recorded, but the %s result is %s just above such a %s edge'
+                               % (sorted(vals), op, 'inside' if exp == 'OutIn' else 'outside', et), loc=b.loc(b.j['line_lo']),
+                               reason='table-row', expected=exp, found=sorted(vals))
+                        if len(vals) == 1:
+                            table[(op, et, subj, io, oio)] = vals.pop()
+    rep.rows_compared += n
+    return table
+
+
 # ---------------------------------------------------------------------------------- T-select
 
 def check_select(ctx, rep, rule='T-select'):
     """in_result == oracle for every (operation, edge_type, is_subject, other_in_out); returns the code's table"""
-    r = table_of_return(ctx, rep, rule, IN_RESULT)
+    if not _anchors_present(ctx):
+        return select_from_combined(ctx, rep, rule)
+    r = table_of_return(ctx, rep, None, IN_RESULT)
     if r is None:
-        return None
+        return select_from_combined(ctx, rep, rule)
     b, tab, rows = r
     allowed = {'operation', 'event.edge_type', 'event.is_subject', 'event.other_in_out', 'event.in_out'}
-    if not need_atoms(rep, rule, IN_RESULT, tab, b, allowed):
-        return None
+    if set(tab.atoms) - allowed:
+        return select_from_combined(ctx, rep, rule)
     code = {}
     for val, out, p in rows:
         op = ename(val.get('operation'))
@@ -108,13 +235,15 @@ def check_select(ctx, rep, rule='T-select'):
 
 def check_trans(ctx, rep, rule, edge_types, name=None):
     """determine_result_transition == oracle on the rows with the given edge types that in_result selects"""
-    r = table_of_return(ctx, rep, rule, DET_TRANS)
+    if not _anchors_present(ctx):
+        return trans_from_combined(ctx, rep, rule, edge_types)
+    r = table_of_return(ctx, rep, None, DET_TRANS)
     if r is None:
-        return None
+        return trans_from_combined(ctx, rep, rule, edge_types)
     b, tab, rows = r
     allowed = {'operation', 'event.edge_type', 'event.is_subject', 'event.other_in_out', 'event.in_out'}
-    if not need_atoms(rep, rule, DET_TRANS, tab, b, allowed):
-        return None
+    if set(tab.atoms) - allowed:
+        return trans_from_combined(ctx, rep, rule, edge_types)
     reads_et = 'event.edge_type' in tab.atoms
     code = {}
     for val, out, p in rows:
@@ -330,6 +459,13 @@ def classify_weak(val, p):
 def check_result_part(ctx, rep, rule='S-result'):
     """third part of compute_fields: result_transition := None when in_result(event, operation) is false, else
     determine_result_transition(event, operation); both evaluated after the flags were written"""
+    if not _anchors_present(ctx):
+        # other helper structure: the stored value is tabulated as a whole (and must be computed after the flags are written)
+        r = combined_table(ctx, rep, rule)
+        rep.ob(rule, 'stored-result-transition-tabulated', r is not None,
+               'the result transition stored by compute_fields cannot be read as a table of the operation and the event\'s own fields',
+               reason='cannot-tabulate')
+        return
     b, ps = rep.explore(ctx, COMPUTE, rule)
     if b is None:
         return
